@@ -88,6 +88,9 @@ def decorate(toks, deco):
             ins.append((0, [vtok] + bond, k))
         elif d[0] == 'suf':
             ins.append((len(toks), bond + [vtok], k))
+        elif d[0] == 'sufsame':
+            # a second fragment-less node with the NAME of the first one
+            ins.append((len(toks), bond + [('n', 'V0', '')], k))
         elif d[0] == 'br':
             ins.append((pos[d[1]], bond + [('(',), vtok, (')',)], k))
         elif d[0] == 'brring':
@@ -132,6 +135,10 @@ def decorations(toks, two):
         yield [d + ('',)], 'negative'
         if d[0] in ('pre', 'br'):
             yield [d + ('=',)], 'negative'
+    # a correctly attached fragment-less node first, then a wrongly bonded one of the same name (and two inert ones)
+    yield [('pre', '.'), ('sufsame', '')], 'negative'
+    yield [('br', 0, '.'), ('sufsame', '')], 'negative'
+    yield [('pre', '.'), ('sufsame', '.')], 'inert'
     for i in range(n):
         for j in range(i + 1, n):
             if (i, j) not in edges:
